@@ -2524,7 +2524,7 @@ class x86_mn(x86_mn_base):
                             elif read_prefix == [0xF3]:
                                 self.opmode = xmm
                                 self.admode = xmm
-                                if not swap_args: raise ValueError('Invalid')
+                                if not swap_args: return None
                                 swap_args = False
                         else:
                             log.debug('Unknown MMX', m.name)
